@@ -125,7 +125,7 @@ let run_cmd (f : string array) : string =
       o_lock_fault = (if f.(11) = "open" then LkOpenFails else if f.(11) = "write" then LkWriteFails else LkOk) } in
   let files = ref [] in
   for i = 14 to Array.length f - 1 do
-    if f.(i) <> "" then files := bytes_of_string (unhex f.(i)) :: !files
+    files := bytes_of_string (unhex f.(i)) :: !files
   done;
   let files = List.rev !files in
   let disc = if f.(13) = "err" then None else Some files in
